@@ -266,3 +266,26 @@ def ok_int_round_trip(n):
 
 M.contract(P + ':ok_int_round_trip', params=dict(n=Int), returns=Int,
            ensures={'int(str(n)) == n': lambda n, result: result == n}, raises_only=())
+
+
+def ok_build_argv(interpreter_args, source_file, args):
+    """argv built with `+=` / append on a fresh list (file interpreter actor)"""
+    arguments = []
+    arguments += interpreter_args
+    arguments.append(source_file)
+    arguments += args
+    return arguments
+
+
+M.contract(P + ':ok_build_argv', params=dict(interpreter_args=ListOf(Str), source_file=Str, args=ListOf(Str)),
+           ghosts=dict(j=Int),
+           ensures={'length': lambda interpreter_args, args, result: len(result) == len(interpreter_args) + 1 + len(args),
+                    'interpreter-args-first': lambda interpreter_args, result, j:
+                    (not (0 <= j < len(interpreter_args))) or result[j] == interpreter_args[j],
+                    'then-the-source-file': lambda interpreter_args, source_file, result:
+                    result[len(interpreter_args)] == source_file,
+                    'then-the-arguments': lambda interpreter_args, args, result, j:
+                    (not (0 <= j < len(args))) or result[len(interpreter_args) + 1 + j] == args[j],
+                    'inputs-unchanged': lambda interpreter_args, args, old: (len(interpreter_args), len(args)) == old},
+           old=lambda interpreter_args, args: (len(interpreter_args), len(args)),
+           raises_only=())
